@@ -190,6 +190,46 @@ func c17LabelsStr(l [][2]string) string {
 	return strings.Join(p, ",")
 }
 
+// c17OrderTie: the order tie of the last judged c17RunAssembly call: (driver op, what the real Select returned)
+var c17OrderTie [2]string
+
+func c17LabelSetArg(ls labels.Labels) string {
+	if len(ls) == 0 {
+		return "_"
+	}
+	p := make([]string, len(ls))
+	for i, l := range ls {
+		p[i] = h.Hex([]byte(l.Name)) + "=" + h.Hex([]byte(l.Value))
+	}
+	return strings.Join(p, ",")
+}
+
+// c17SeriesOrder: the SeriesSet level. Oracle (no model): the series come strictly ascending by Prometheus' own
+// labels.Compare — sorted as storage.Querier.Select documents, no label set twice. Tie: the label sets in fingerprint order
+// are handed to the model, which sorts them with its comparator (Read.SeriesOrder.sortSeries); the answer must be the order
+// the real Select returned.
+func c17SeriesOrder(r *h.Result, got []c17Series, rep any) [2]string {
+	for i := 1; i < len(got); i++ {
+		if labels.Compare(got[i-1].Labels, got[i].Labels) >= 0 {
+			r.Violate("C17/seriesset-not-sorted", fmt.Sprintf("series %d %v comes before series %d %v: not ascending by labels.Compare", got[i-1].Fp, got[i-1].Labels, got[i].Fp, got[i].Labels), rep)
+			break
+		}
+	}
+	if len(got) == 0 {
+		return [2]string{}
+	}
+	in := append([]c17Series(nil), got...)
+	sort.SliceStable(in, func(i, j int) bool { return in[i].Fp < in[j].Fp })
+	var a, b []string
+	for _, s := range in {
+		a = append(a, c17LabelSetArg(s.Labels))
+	}
+	for _, s := range got {
+		b = append(b, c17LabelSetArg(s.Labels))
+	}
+	return [2]string{"c17order " + strings.Join(a, ";"), strings.Join(b, ";")}
+}
+
 // c17RunAssembly runs the real Select over rows/labels and judges the assembly part of the property.
 func c17RunAssembly(r *h.Result, sc *fakes.Script, q storage.Querier, rows []c17Row, lbls map[uint64][][2]string, judge bool) (string, error) {
 	sc.SetResponder(func(qs string) ([]string, [][]driver.Value, error) {
@@ -231,6 +271,7 @@ func c17RunAssembly(r *h.Result, sc *fakes.Script, q storage.Querier, rows []c17
 	if !judge {
 		return canon, nil
 	}
+	c17OrderTie = c17SeriesOrder(r, got, c17AsmCase{Stream: "assemble", Rows: c17RowsStr(rows)})
 	lstr := map[string]string{}
 	for fp, l := range lbls {
 		lstr[strconv.FormatUint(fp, 10)] = c17LabelsStr(l)
@@ -483,6 +524,10 @@ func c17Assembly(r *h.Result, rng *h.Rng, n int) error {
 			lstr[strconv.FormatUint(fp, 10)] = c17LabelsStr(l)
 		}
 		cases = append(cases, c17AsmCase{Stream: "assemble", Rows: rs, Labels: lstr, Pairs: pstr})
+		if c17OrderTie[0] != "" {
+			ops, impl = append(ops, c17OrderTie[0]), append(impl, c17OrderTie[1])
+			cases = append(cases, c17AsmCase{Stream: "assemble", Rows: rs, Labels: lstr, Pairs: pstr})
+		}
 		r.Case("assemble:"+rs, len(fps) >= 2)
 		switch {
 		case len(fps) == 0:
@@ -504,6 +549,12 @@ func c17Assembly(r *h.Result, rng *h.Rng, n int) error {
 		return err
 	}
 	for i := range ops {
+		if strings.HasPrefix(ops[i], "c17order ") {
+			if model[i] != impl[i] { // the order itself is what is compared
+				r.Disagree("assemble", ops[i], impl[i], model[i], cases[i])
+			}
+			continue
+		}
 		if m := c17CanonModelSeries(model[i]); m != c17CanonModelSeries(impl[i]) {
 			r.Disagree("assemble", ops[i], impl[i], m, cases[i])
 		}
